@@ -3,6 +3,7 @@ package props
 import (
 	"fmt"
 	"math"
+	"sort"
 	"strconv"
 	"strings"
 	"time"
@@ -79,6 +80,23 @@ func projectCells(rows [][]rcell, idx ...int) [][]rcell {
 	return out
 }
 
+// strictKeys: under --strict-equal values are equal iff they have the same type and the same text; everything read from
+// a file is a string, csvq trims it (as it does for every comparison) and keeps the letter case
+func strictKeys(tables ...[][]rcell) {
+	for _, t := range tables {
+		for _, r := range t {
+			for k := range r {
+				if r[k].N {
+					continue
+				}
+				c := rcell{T: r[k].T, IsS: true, Fk: "num", Tern: "U"}
+				c.u = trimSp(r[k].T)
+				r[k] = c
+			}
+		}
+	}
+}
+
 func half2(c rcell) (int64, bool) {
 	if c.N || !c.HasF || c.Fk != "num" {
 		return 0, false
@@ -89,7 +107,8 @@ func half2(c rcell) (int64, bool) {
 func runC04(r *core.Run) {
 	r.Assume = []string{
 		"pairs of values that are equal under = but sit on different rungs of the normalisation ladder ('1' vs '1.0', 'true' vs '1') are left to the implementation, as the statement and the manual do not settle them",
-		"aggregates are checked on integers and halves (COUNT, SUM, MIN, MAX; exact), not on arbitrary floats",
+		"aggregates are checked on integers and halves (COUNT, SUM, MIN, MAX, AVG, MEDIAN, COUNT DISTINCT, LISTAGG of the row ids, two user-defined aggregates; exact), not on arbitrary floats (STDEV, VAR)",
+		"--strict-equal is read as: same type and same text after csvq's usual trimming, letter case kept (values read from files are all strings); the statement's 'exact text' does not say whether outer spaces count",
 	}
 	mc := r.MustHold(core.TLCOpts{Module: "RelMC", Cfg: "RelMC_bucket.cfg", Workers: 8})
 	r.Coverage["states"] = mc.Distinct
@@ -158,6 +177,14 @@ func runC04(r *core.Run) {
 		}
 		cpu := []int{1, 4, 8}[rng.Intn(3)]
 		x := newRelRun(r, cpu, t, u)
+		x.p.Exec("DECLARE ucnt AGGREGATE (list) AS BEGIN VAR @n := 0, @v; WHILE @v IN list DO @n := @n + 1; END WHILE; RETURN @n; END;" +
+			"DECLARE unn AGGREGATE (list) AS BEGIN VAR @n := 0, @v; WHILE @v IN list DO IF @v IS NOT NULL THEN @n := @n + 1; END IF; END WHILE; RETURN @n; END;")
+		strict := c%4 == 1 && kind == "decided"
+		if strict {
+			// exact type and text: everything read from a file is a string, so only identical (trimmed) texts share a bucket
+			x.p.Exec("SET @@STRICT_EQUAL TO TRUE;")
+			kind = "strict"
+		}
 		switch rng.Intn(4) {
 		case 3: // PARTITION BY: several analytic functions over the same partition list, one of them re-ordering the rows
 			sql := "SELECT id, COUNT(*) OVER (PARTITION BY " + kcols + ") AS n, LISTAGG(id, ',') OVER (PARTITION BY " + kcols + " ORDER BY v DESC, id) AS l, SUM(v) OVER (PARTITION BY " + kcols + ") AS s FROM t"
@@ -204,6 +231,9 @@ func runC04(r *core.Run) {
 			if kind == "dtwrap" {
 				compressNumeric(keys)
 			}
+			if strict {
+				strictKeys(keys)
+			}
 			rankStrings(keys)
 			add(sql, "bucket:partition:"+kind, cpu, map[string]interface{}{"kind": "partition", "keys": keys, "vals": vals, "res": per}, t.Rows)
 		case 0: // DISTINCT
@@ -220,10 +250,13 @@ func runC04(r *core.Run) {
 			if kind == "dtwrap" {
 				compressNumeric(keys, res)
 			}
+			if strict {
+				strictKeys(keys, res)
+			}
 			rankStrings(keys, res)
 			add(sql, "bucket:distinct:"+kind, cpu, map[string]interface{}{"kind": "distinct", "keys": keys, "res": cellsJSON(res)}, t.Rows)
 		case 1: // GROUP BY with aggregates
-			sql := "SELECT " + kcols + ", COUNT(*) AS c, COUNT(v) AS cv, SUM(v) AS s, MIN(v) AS mn, MAX(v) AS mx, AVG(v) AS av, COUNT(DISTINCT 1) AS c1, COUNT(DISTINCT v) AS cd FROM t GROUP BY " + kcols
+			sql := "SELECT " + kcols + ", COUNT(*) AS c, COUNT(v) AS cv, SUM(v) AS s, MIN(v) AS mn, MAX(v) AS mx, AVG(v) AS av, COUNT(DISTINCT 1) AS c1, COUNT(DISTINCT v) AS cd, LISTAGG(id, ',') WITHIN GROUP (ORDER BY id) AS ids, ucnt(v) AS ua, unn(v) AS un, MEDIAN(v) AS md FROM t GROUP BY " + kcols
 			res, _, e := x.query(sql + ";")
 			if e != "" {
 				if !errRep[e] {
@@ -259,6 +292,29 @@ func runC04(r *core.Run) {
 					bad = "COUNT is not an integer: " + row[nk+6].T + "/" + row[nk+7].T
 				}
 				g["cnt1"], g["cntd"] = cnt1, cntd
+				ids := []int{}
+				for _, f := range strings.Split(row[nk+8].T, ",") {
+					id, e5 := strconv.Atoi(f)
+					if e5 != nil {
+						bad = "LISTAGG(id) is not a list of integers: " + row[nk+8].T
+					}
+					ids = append(ids, id)
+				}
+				sort.Ints(ids) // (under --strict-equal ORDER BY compares the ids as texts; the check is about membership)
+				ua, e6 := strconv.Atoi(row[nk+9].T)
+				un, e7 := strconv.Atoi(row[nk+10].T)
+				if e6 != nil || e7 != nil {
+					bad = "a user-defined aggregate does not return its count: " + row[nk+9].T + "/" + row[nk+10].T
+				}
+				g["ids"], g["ucnt"], g["unn"] = ids, ua, un
+				g["hasmed"], g["med4"] = !row[nk+11].N, 0
+				if f, err := strconv.ParseFloat(row[nk+11].T, 64); err == nil && !row[nk+11].N {
+					if m4 := f * 4; m4 == math.Trunc(m4) && math.Abs(m4) < 1e9 {
+						g["med4"] = int(m4)
+					} else {
+						bad = "MEDIAN of integers and halves is not a multiple of 0.25: " + row[nk+11].T
+					}
+				}
 				s2, ok1 := half2(row[nk+2])
 				mn2, ok2 := half2(row[nk+3])
 				mx2, ok3 := half2(row[nk+4])
@@ -295,6 +351,9 @@ func runC04(r *core.Run) {
 			if kind == "dtwrap" {
 				compressNumeric(keys, reskeys)
 			}
+			if strict {
+				strictKeys(keys, reskeys)
+			}
 			rankStrings(keys, reskeys)
 			add(sql, "bucket:group:"+kind, cpu, map[string]interface{}{"kind": "group", "keys": keys, "vals": vals, "res": groups}, t.Rows)
 		case 2: // set operators
@@ -316,6 +375,9 @@ func runC04(r *core.Run) {
 			A, B := projectCells(t.Rows, kidx...), projectCells(u.Rows, kidx...)
 			if kind == "dtwrap" {
 				compressNumeric(A, B, res)
+			}
+			if strict {
+				strictKeys(A, B, res)
 			}
 			rankStrings(A, B, res)
 			sig := "bucket:" + op
